@@ -24,3 +24,29 @@ def pmap(fn, items, jobs=None):
         if tag == 'err': raise RuntimeError('worker failed: ' + v)
         res.append(v)
     return res
+
+# ---------------------------------------------------------------------------------------------------------------------
+# hard wall-clock guard for code under test that may not return (a changed tree can loop inside one proof step, where
+# the tableau's own build_timeout is never consulted)
+import contextlib, signal, threading, time
+
+class HardTimeout(BaseException):
+    "raised by the alarm; BaseException so that `except Exception` in the code under test does not swallow it"
+
+@contextlib.contextmanager
+def hard_timeout(seconds):
+    if threading.current_thread() is not threading.main_thread():
+        yield; return
+    old_handler = signal.getsignal(signal.SIGALRM)
+    outer = signal.getitimer(signal.ITIMER_REAL)[0]
+    def handler(sig, frm): raise HardTimeout()
+    signal.signal(signal.SIGALRM, handler)
+    signal.setitimer(signal.ITIMER_REAL, min(seconds, outer) if outer else seconds)
+    t0 = time.time()
+    try:
+        yield
+    finally:
+        signal.setitimer(signal.ITIMER_REAL, 0)
+        signal.signal(signal.SIGALRM, old_handler)
+        if outer:
+            signal.setitimer(signal.ITIMER_REAL, max(outer - (time.time() - t0), 0.01))
